@@ -12,6 +12,8 @@ for i in range(1, 20):
 tbl = "<!-- STATUS-TABLE-BEGIN -->\n| property | theorems audited | first few | Lean modules |\n|---|---|---|---|\n" + "\n".join(rows) + "\n<!-- STATUS-TABLE-END -->"
 p = os.path.join(os.path.dirname(os.path.dirname(os.path.abspath(__file__))), "DESIGN.md")
 s = open(p).read()
+total = sum(len(importlib.import_module("props.c%02d" % i).THEOREMS) for i in range(1, 20))
+s = re.sub(r"\(\d+ audits in all", "(%d audits in all" % total, s)
 if "<!-- STATUS-TABLE-BEGIN -->" in s:
     s = re.sub(r'<!-- STATUS-TABLE-BEGIN -->.*?<!-- STATUS-TABLE-END -->', lambda _: tbl, s, flags=re.S)
 else:
